@@ -4,7 +4,7 @@ CONSTANTS
   Threads = {1, 2, 3, 4}
   SplitSwap = FALSE
   M = 2
-  MaxReq = 4
-  MaxCalls = 7
+  MaxReq = 3
+  MaxCalls = 6
 INVARIANTS ConservationM Retrievable TakenOnce NoAlias
 PROPERTIES FailsOnlyWhenEmpty ClosingComplete
